@@ -72,6 +72,17 @@ CLAIMED["C15"]["text"]=("Deductive proof, for all inputs, of GoVersion.GreaterOr
    "'M.N' / 'goM.N' decimal => {M,N}; exactly the valid strings are accepted), SetGoVersion, and of the hand-over of the target version to the rule engine "
    "(the per-file RunContext carries ctx.GoVersion field by field). The per-rule version gates of the precompiled rules are not yet checked.")
 
+CLAIMED.update({
+ "C01": dict(
+   text="Zero-annotation deductive sweep over every function of checkers, checkers/internal/astwalk, checkers/internal/lintutil and linter (about 560 functions): "
+        "one obligation per panic-capable SSA instruction (nil dereference, index and slice bounds, unchecked type assertion, division, explicit panic, non-nil receiver/node arguments "
+        "of repository calls) generated from the current tree and discharged under the theory ast-valid (what the parser and type checker guarantee, deliberately nothing about "
+        "argument counts derived from a callee's spelling). About 2300 of about 2490 obligations are proved on the unchanged tree and recorded in ledger/C01.proved; the check fails when "
+        "one of them no longer discharges or is replaced by an undischarged one. The remaining obligations (listed in the evidence as undecided_not_claimed) are NOT claimed: they include "
+        "the genuine crash sites known from DESIGN §9 as well as facts about the regexp parser's trees and string shapes that the theory does not provide. Termination is not proved here.",
+   design="§7 C01", technique="contract-based deductive verification, zero-annotation safety sweep with a ledger of proved obligations (SMT)"),
+})
+
 NA_REASON_PENDING = "check not built yet in this round (planned, DESIGN §7); not claimed until its obligations discharge"
 NOT_APPLICABLE = {
  "C11": "no contract within reach can state equality of Go-regexp match behaviour between a pattern and the string printed from a third-party parse tree (DESIGN §8)",
